@@ -19,6 +19,8 @@ import (
 	"sort"
 	"strconv"
 	"strings"
+	"sync"
+	"time"
 
 	"github.com/MixinNetwork/mixin/common"
 	"github.com/MixinNetwork/mixin/config"
@@ -743,6 +745,8 @@ func c15ExecLedger(prop string) func(st *State, line string) Result {
 			}
 			res.LeanIn = strings.Join(f, " ")
 			c.finalize(b, prop, &res, true)
+		case "csnap":
+			c.execConcurrent(f, prop, &res)
 		case "nop":
 			res.Out = "skip"
 		case "admit", "admitv":
@@ -1238,4 +1242,141 @@ func (c *c15LedgerCase) recordValidationAt(id int, db *c15RawDB) {
 	}
 	_, seen := db.get(append([]byte("ASSETINFO"), tx.Asset[:]...))
 	c.valTotal[id], c.valSeen[id] = total, seen
+}
+
+// `csnap n <7 snapshot fields> x n`: n goroutines call WriteSnapshot while a writer holds the store mutex,
+// so all of them are queued when it is released. The order in which they committed is read from the
+// Badger versions of their topology keys; the model is given the snapshots in that order.
+func (c *c15LedgerCase) execConcurrent(f []string, prop string, res *Result) {
+	n := c15Atoi(f[1])
+	var snaps []*c15Snap
+	var fields [][]string
+	for i := 0; i < n; i++ {
+		g := append([]string{"snap"}, f[2+7*i:2+7*(i+1)]...)
+		snaps = append(snaps, c.buildSnap(g))
+		fields = append(fields, g[1:])
+	}
+	before := c.raw()
+	outs := make([]string, n)
+	var wg sync.WaitGroup
+	c.store.VerifC15WithMutex(func() {
+		for i := range snaps {
+			wg.Add(1)
+			go func(i int) {
+				defer wg.Done()
+				b := snaps[i]
+				outs[i], _, _ = Catch(func() string {
+					err := c.store.WriteSnapshot(&common.SnapshotWithTopologicalOrder{Snapshot: b.snap, TopologicalOrder: uint64(b.topo)}, b.signers)
+					if err != nil {
+						return "err"
+					}
+					return "ok"
+				})
+			}(i)
+			time.Sleep(3 * time.Millisecond) // queue them one after the other
+		}
+		time.Sleep(25 * time.Millisecond) // everybody is waiting (for the mutex, or with a transaction already open)
+	})
+	wg.Wait()
+	after := c.raw()
+	vers, err := c.store.VerifC15KeyVersions()
+	if err != nil {
+		panic(err)
+	}
+	// commit order
+	order := make([]int, n)
+	for i := range order {
+		order[i] = i
+	}
+	ver := func(i int) uint64 {
+		if outs[i] != "ok" {
+			return ^uint64(0)
+		}
+		return vers[string(append([]byte("SNAPTOPO"), snaps[i].snap.Hash[:]...))]
+	}
+	sort.SliceStable(order, func(a, b int) bool { return ver(order[a]) < ver(order[b]) })
+	lean := []string{"csnap", f[1]}
+	var results []string
+	for _, i := range order {
+		lean = append(lean, fields[i]...)
+		results = append(results, outs[i])
+	}
+	res.LeanIn = strings.Join(lean, " ")
+	res.Out = strings.Join(results, " ")
+	res.Tags = append(res.Tags, "csnap", fmt.Sprintf("csnap-n:%d", n))
+	res.Nontrivial = true
+
+	// bookkeeping and oracles, in commit order
+	firstBy := map[int]int{} // transaction -> index of the first committed snapshot that contains it
+	delta := map[int]*big.Int{}
+	for _, i := range order {
+		if outs[i] != "ok" {
+			continue
+		}
+		for _, id := range snaps[i].txs {
+			if _, ok := firstBy[id]; ok {
+				continue
+			}
+			firstBy[id] = i
+			if c.finalTx[id] {
+				continue
+			}
+			c.finalTx[id] = true
+			if !c.pending[id] {
+				c.tainted = true
+			}
+			tx := c.txByID[id]
+			a := c.assetID[tx.Asset]
+			if delta[a] == nil {
+				delta[a] = new(big.Int)
+			}
+			switch tx.TransactionType() {
+			case common.TransactionTypeDeposit:
+				delta[a].Add(delta[a], integerToBig(tx.Inputs[0].Deposit.Amount))
+			case common.TransactionTypeMint:
+				delta[a].Add(delta[a], integerToBig(tx.Inputs[0].Mint.Amount))
+			case common.TransactionTypeWithdrawalSubmit:
+				for _, o := range tx.Outputs {
+					if o.Type == common.OutputTypeWithdrawalSubmit {
+						delta[a].Sub(delta[a], integerToBig(o.Amount))
+					}
+				}
+			}
+		}
+	}
+	for a, d := range delta {
+		if c.expected[a] == nil {
+			c.expected[a] = new(big.Int)
+		}
+		c.expected[a].Add(c.expected[a], d)
+	}
+	if prop != "C15" {
+		return
+	}
+	for id, i := range firstBy {
+		h := c.hashOf(id)
+		fk := append([]byte("FINALIZATION"), h...)
+		want := snaps[i].snap.Hash
+		if old, was := before.get(fk); was {
+			want = c15Hash(old)
+		}
+		now, is := after.get(fk)
+		if !is || c15Hash(now) != want {
+			res.PropKey = "C15:finalization-overwritten"
+			res.PropDesc = fmt.Sprintf("queued snapshots sharing transaction %d: its finalization record is not the first snapshot that committed (%s)", id, c15SymOf(c.snapID, want))
+		}
+	}
+	read := func(db *c15RawDB, a int) *big.Int {
+		h := c.assetOf[a]
+		if v, ok := db.get(append([]byte("ASSETTOTAL"), h[:]...)); ok {
+			return integerToBig(common.NewIntegerFromString(string(v)))
+		}
+		return new(big.Int)
+	}
+	for a, d := range delta {
+		if got := new(big.Int).Sub(read(after, a), read(before, a)); got.Cmp(d) != 0 && res.PropKey == "" {
+			res.PropKey = "C15:effects-applied-twice"
+			res.PropDesc = fmt.Sprintf("queued snapshots: total of asset %d moved by %s, the distinct transactions they finalized account for %s", a, got, d)
+		}
+	}
 }
